@@ -54,8 +54,15 @@ ASSUMPTIONS = [
     "NOT generated (outside the mutators the property lists; see the 'outside' entries of DIMENSIONS): assignments to attributes of a "
     "state object the obstacle holds other than through initial_state=, vertex setters and the distance setter of a lanelet, edits of "
     "an Occupancy returned by a TrajectoryPrediction query, Trajectory.initial_time_step= (it produces a trajectory the public "
-    "constructor rejects), history lists of unequal length handed to the DynamicObstacle constructor, update_initial_state with a "
-    "non-InitialState argument (it raises after appending to the histories), DynamicObstacle wheelbase_lengths with more than one shape",
+    "constructor rejects), history lists of unequal length handed to the DynamicObstacle constructor, DynamicObstacle wheelbase_lengths "
+    "with more than one shape",
+    "update_initial_state calls REJECTED by a validating setter (op update_rej: a state that is no InitialState, a signal state that is no "
+    "SignalState, lanelet ids that are a list / tuple / frozenset / set of numpy integers / of strings / of floats, one or several "
+    "arguments at once) ARE generated; the caller catches the AssertionError and goes on. The oracle demands of such a call only what the "
+    "property sentence states: the four lists are left as they were, or all four are one entry longer by the four values that were current "
+    "together when the call began (equal length, entry i of each list from the same previous state); the bound max_history_length is owed "
+    "again by the next accepted call (the real code appends first and raises before it cuts: m + 1 entries until then; model "
+    "Obs.rejectedUpdate, C11_rejected_update_step / C11_rejected_then_accepted)",
     "add_lanelet / remove_lanelet with rtree=False ask for the index NOT to be rebuilt: lookups are compared with the model but "
     "not judged by the oracle until an add/remove with rtree=True has rebuilt it; likewise after a network translate_rotate that raised "
     "half way on a 3-D lanelet (the model says which lanelets moved) until a later translate_rotate / replacement rebuilds the index",
@@ -324,8 +331,9 @@ DIMENSIONS = {'TrajectoryPrediction': {'trajectory': 'varied: 1..8 states; KSSta
                      'shape_lanelet_ids_history': "varied: with 'hist0'",
                      'kwargs': "varied: wheelbase_lengths keyword with a one-shape ShapeGroup ('owb'); with more shapes the InitialState has no "
                                'hitch_angle (outside)',
-                     'update_initial_state': 'varied: op update, bounds 1..6 / default / lowered / non-positive (raises, history goes on); a '
-                                             'non-InitialState argument raises AFTER appending to the histories — not generated (ASSUMPTIONS)',
+                     'update_initial_state': 'varied: op update, bounds 1..6 / default / lowered / non-positive (raises, history goes on); op '
+                                             'update_rej: each argument in turn (and several at once) of a kind its setter rejects, then '
+                                             'further accepted / rejected calls and q_hist (buckets hist/rejected-arg-0..3)',
                      'update_prediction': "varied: op set_pred via 'update_prediction'"},
  'Lanelet': {'left_vertices': 'varied: 2..6 vertices, straight / bent / tapered, 2-D / 3-D, float / int arrays (g_lanelet); the setter is outside '
                               '(not a listed mutator; documented in the code as invalidating)',
